@@ -177,7 +177,7 @@ impl Check for C09 {
                 fields.push(Field { name: nm.fresh(&mut r, "field"), ty: prim(&mut r), public: true, rename: None, skip: false, validate: None });
             }
             r.shuffle(&mut fields);
-            items.push(Item::Struct(StructDef { name: names[k].clone(), fields, rename_all: None, serde: true }));
+            items.push(Item::Struct(StructDef { name: names[k].clone(), fields, rename_all: None, serde: true, qualified_derive: r.chance(1, 6) }));
         }
         // isolated decoy type
         if r.chance(1, 3) {
@@ -186,6 +186,7 @@ impl Check for C09 {
                 fields: vec![Field { name: nm.fresh(&mut r, "field"), ty: prim(&mut r), public: true, rename: None, skip: false, validate: None }],
                 rename_all: None,
                 serde: true,
+                qualified_derive: false,
             }));
         }
         // roots (no incoming edge) must be referenced from the public surface; some inner types too
@@ -211,7 +212,7 @@ impl Check for C09 {
             match how {
                 0 => c.params.push(Param { name: nm.fresh(&mut r, "field"), ty: context(r.below(10) as usize, t, &mut r) }),
                 1 => c.ret = Some(Ty::Res(Box::new(context(r.below(10) as usize, t, &mut r)), "String".into())),
-                2 => c.chans.push(Chan { name: nm.fresh(&mut r, "field"), msg: t }),
+                2 => c.chans.push(Chan { name: nm.fresh(&mut r, "field"), msg: t, rename: None }),
                 _ => {
                     c.params.push(Param { name: nm.fresh(&mut r, "field"), ty: prim(&mut r) });
                     c.emits.push(Emit { event: nm.fresh(&mut r, "event"), payload: Payload::Lit(names[*k].clone()), emit_to: false });
@@ -351,7 +352,23 @@ impl Check for C09 {
                         continue;
                     }
                     match defined.get(m.as_str()) {
-                        None => co.count("undeclared_refs(not judged: closure, C02/C07)", 1),
+                        None => {
+                            // read, and defined nowhere: evaluating the module throws. Judged when the
+                            // name is a serde type of THIS project (ground truth from the model); a
+                            // token the translator garbled, or a type the project does not define,
+                            // is somebody else's business (C05 / C07)
+                            let mb = m.trim_end_matches("Schema");
+                            let live_types: BTreeSet<String> = if *is_phase2 { model2.serde_type_names() } else { c.model.serde_type_names() }.into_iter().collect();
+                            if live_types.contains(mb) {
+                                co.violate(
+                                    "C09/read-never-defined".into(),
+                                    "no schema constant is read before its definition (this one is defined nowhere)",
+                                    format!("{} reads {} but the file never defines it; order: {}", name, m, seq.iter().map(|x| x.0.as_str()).collect::<Vec<_>>().join(" ")),
+                                );
+                            } else {
+                                co.count("refs_to_names_the_project_does_not_define(not judged)", 1);
+                            }
+                        }
                         Some(&dpos) => {
                             co.count("schema_references_checked", 1);
                             if dpos > pos {
